@@ -81,3 +81,27 @@ package transport
 //@ nobounds
 //@ requires c.tracked != nil && chunk.ChunkId < MaxUint64 && !gRecvFinalized && !rsm.gStreamValid
 //@ modifies rsm.gLastAddOK, rsm.gStreamValid, gRecvFinalized, held(c.mu), entries(c.tracked), allof(tracked.next), allof(tracked.tick), allof(tracked.files)
+
+// ---------------------------------------------------------------- TCP frames: a payload is accepted only with a matching checksum (C13)
+// crc32 is uninterpreted; its error-detection power is an assumption, what is proved is that an
+// unencrypted payload is delivered only if its checksum equals the one in the (already
+// validated) header, that the payload has exactly the announced length, and that the chunked
+// read never indexes outside the buffer.
+//@ extern hash/crc32 ChecksumIEEE
+//@ ensures result == uf("crc32", ptr(data), len(data))
+//@ extern net (c Conn) SetReadDeadline
+//@ extern io ReadFull
+//@ modifies elems(buf)
+//@ extern time Now
+//@ extern time (t Time) Add
+//@ func (h *requestHeader) decode [C13]
+//@ trusted parses and checks the fixed-size header (method, size, checksums)
+//@ modifies *h
+
+//@ func readMessage [C13]
+//@ noframe
+//@ requires len(rbuf) < 4611686018427387904
+//@ ensures result2 == nil ==> result0.size != 0 && len(result1) == result0.size
+//@ ensures result2 == nil && !encrypted ==> uf("crc32", ptr(result1), len(result1)) == result0.crc
+//@ loop 1 invariant received + toRead == rheader.size && len(buf) == rheader.size && rheader.size != 0 && rheader.size < 4611686018427387904
+//@ loop 1 invariant ptr(recvBuf) == ptr(buf) + received && len(recvBuf) == min(toRead, recvBufSize) && cap(recvBuf) == cap(buf) - received && cap(buf) >= len(buf)
